@@ -419,6 +419,11 @@ def run_batch(ctx, cases, cli_every):
         status, real, model, line = r[:4]
         if status != 0:
             ctx.cov["rejected_patterns"] = ctx.cov.get("rejected_patterns", 0) + 1
+            if status != 1:
+                # 1 = the pattern was rejected; anything else means the real searcher could not run the case at all
+                ctx.violation("the harness could not run a generated case on the real searcher (status %d)" % status,
+                              dict(kind=1001, case=line, pattern=c["pattern"], flags=c["flags"],
+                                   files=[(repr(p_), repr(d)) for p_, d in c["files"]]), nfi=True)
             continue
         if not r[5]:
             ctx.cov["skipped_searcher_broke_prefix_law_C16"] = ctx.cov.get("skipped_searcher_broke_prefix_law_C16", 0) + 1
